@@ -234,6 +234,17 @@ def sp_reach_mono(interp, st, args, kwargs, node):
     return z3.Implies(z3.And(sub, to_z3(same)), concl)
 
 
+def sp_reach_trans(interp, st, args, kwargs, node):
+    """LEMMA: reach is transitive."""
+    LEMMAS_USED.add("reach_trans: reachability is transitive")
+    m = args[0]
+    s0, s1, u0, u1, v0, v1 = [z3.Int(V.fresh_name(n)) for n in ("s0", "s1", "u0", "u1", "v0", "v1")]
+    return z3.ForAll(
+        [s0, s1, u0, u1, v0, v1],
+        z3.Implies(z3.And(reach(st, m, (s0, s1), (u0, u1)), reach(st, m, (u0, u1), (v0, v1))), reach(st, m, (s0, s1), (v0, v1))),
+    )
+
+
 def sp_reach_sym(interp, st, args, kwargs, node):
     """LEMMA: the lattice graph is undirected, so reach is symmetric."""
     LEMMAS_USED.add("reach_sym: edges are undirected, hence reach is symmetric")
@@ -419,6 +430,7 @@ SPEC_FUNCTIONS = {
     "reach_induction": sp_reach_induction,
     "reach_mono": sp_reach_mono,
     "reach_sym": sp_reach_sym,
+    "reach_trans": sp_reach_trans,
     "forall": sp_forall,
     "exists": sp_exists,
     "implies": sp_implies,
